@@ -436,11 +436,12 @@ def d4_designated(chk, F):
                sample="fit_fraction candidates: converter.best[unit.physical_quantity].conversions(system)")
 
 
-def d5_fit_range(chk, F):
+def d5_fit_range(chk, F, rule="C09.D5-fit-range"):
     """fit_fraction re-expresses a range in the selected unit: both ends of the new Value::Range must be values
     converted to that unit (every alternative of `end` goes through convert_f64 of the old end)."""
     ff = [g for g in F.funcs.values() if g.key.endswith("::fit_fraction") and "Quantity" in g.key and not g.is_closure()]
     if len(ff) != 1:
+        chk.fail("anchor-missing", "fit_fraction", "", f"anchor-missing: Quantity::fit_fraction found {len(ff)} times")
         return
     g = ff[0]
     from cfgq import aggregates
@@ -453,10 +454,10 @@ def d5_fit_range(chk, F):
         for fld in ("start", "end"):
             e = resolve(g, d[fld])
             raw = _unconverted(e)
-            chk.expect(not raw, "C09.D5-fit-range", f"fit_fraction|Range.{fld}", where,
+            chk.expect(not raw, rule, f"fit_fraction|Range.{fld}", where,
                        f"when a range is fitted to a fraction in another unit, its {fld} can keep the number it had in the old unit ({raw[0][:80] if raw else ''}): "
                        "the range would mix two units", sample=f"{where}: Range.{fld} always derives from a convert_f64(..) to the new unit")
-    chk.floor("C09.D5-fit-range", "Range constructions in fit_fraction", n, 1, f"{g.file}:{g.line}")
+    chk.floor(rule, "Range constructions in fit_fraction", n, 1, f"{g.file}:{g.line}")
 
 
 def _unconverted(e, depth=0):
